@@ -25,6 +25,13 @@ CORPUS = [
     ("(setof (choice (r int) (r (str 4))))", "(of (ch 1 (s ff)) (ch 0 (i 16777217)) (ch 0 (i 16777216)) (ch 0 (i 1)))"),
     ("(setof (seq (r int) (o int)))", "(of (seq (i 4) (i 1)) (seq (i 4) (i 0)) (seq (i 5) absent))"),
     ("(setof int)", "(of (i 1) (i 1) (i 2))"),                                                # repeated members are kept
+    # SET with a DEFAULT member of constructed type: a value with empty contents that differs from the (non-empty) default
+    # is written out, in DER and CER alike
+    ("(set (r int) (d (of (i 1)) (seqof int)))", "(seq (i 7) (of))"),
+    ("(set (r int) (d (of (i 1) (i 2)) (setof int)))", "(seq (i 7) (of))"),
+    ("(set (r int) (d (seq (i 5)) (tag i c 1 (seq (d (i 33) int)))))", "(seq (i 7) (seq (i 33)))"),
+    ("(set (r int) (d (of (i 1)) (seqof int)))", "(seq (i 7) (of (i 1)))"),
+    ("(set (r (tag i c 0 int)) (o (tag i c 1 (seqof int))) (d (of (i 1)) (tag i c 2 (seqof int))))", "(seq (i 7) (of) (of))"),
 ]
 
 
